@@ -12,7 +12,7 @@ RULE = (
     "between instructions of different functions must be a call edge into the callee's first instruction or a return edge matched by "
     "the shadow call stack; (ii) the TERM family -- 6 function sets x 8 terminating main shapes (straight line, single call, break out "
     "of while True, conditional end, counted while, for-range, call as last statement, end after a yield) x inline on/off x both "
-    "calling conventions: after the last top-level instruction the machine must halt, with exactly the effect trace of the reference "
+    "calling conventions, and the DEAD family (7 compile-time constant flags x 8 guard shapes x 5 guarded actions, as endless main, terminating main and function body; functions called only from pruned code): after the last top-level instruction the machine must halt, with exactly the effect trace of the reference "
     "executor and no instruction of a function region executed without a call.  X-RUN explores every device-answer sequence.  "
     "Non-trivial case = >= 2 distinct effect traces explored."
 )
@@ -30,6 +30,9 @@ def build_cases(tier):
         # with inlining on and every function called from one site only, no function is emitted out of line
         for v in CONV:
             cases.append(dict(c, variants=[v], family=common.term_family(c, v)))
+    # constant-flag guards: a function whose only call sites are in pruned code must not be emitted at all
+    for c in F.dead(tier):
+        cases.append(dict(c, variants=CONV))
     step = 3 if tier == "quick" else 1
     for c in F.func(tier)[::step] + F.func2(tier)[::step]:
         cases += common.split_call_case(c, CONV)
